@@ -183,3 +183,35 @@ impl Cond {
             .set("rate", self.rate)
     }
 }
+
+/// Engine over in-memory voices (the same construction Engine::load performs).
+pub fn engine_from_voices(voices: Vec<std::sync::Arc<jbonsai::model::Voice>>) -> Result<Engine, String> {
+    let vs = jbonsai::model::VoiceSet::new(voices).map_err(|e| format!("{}", e))?;
+    let mut c = jbonsai::Condition::default();
+    c.load_model(&vs).map_err(|e| format!("{}", e))?;
+    Ok(Engine::new(vs, c))
+}
+
+/// dyadic weight vector (k_i / 64) summing exactly to 1; `wild` allows negative / > 1 components
+pub fn dyadic_weights(rng: &mut Rng, n: usize, wild: bool) -> Vec<f64> {
+    if n == 1 {
+        return vec![1.0];
+    }
+    let mut k: Vec<i64> = vec![0; n];
+    if wild {
+        let mut rest = 64i64;
+        for item in k.iter_mut().take(n - 1) {
+            let v = rng.irange(-64, 128);
+            *item = v;
+            rest -= v;
+        }
+        k[n - 1] = rest;
+    } else {
+        // random composition of 64 into n non-negative parts
+        for _ in 0..64 {
+            let i = rng.below(n);
+            k[i] += 1;
+        }
+    }
+    k.iter().map(|x| *x as f64 / 64.0).collect()
+}
